@@ -5,7 +5,9 @@ import (
 	"bytes"
 	"fmt"
 	"math/rand"
+	"strings"
 	"testing"
+	"time"
 
 	ics23 "github.com/confio/ics23/go"
 
@@ -19,6 +21,7 @@ import (
 )
 
 type mon struct {
+	old map[string]clienttypes.Height // aged histories: a height each client stored before the ageing
 	r   *core.Run
 	cid string
 	s   *pkt.Sim
@@ -54,7 +57,14 @@ func runHistory(r *core.Run, cid string, L int) {
 		return
 	}
 	m := &mon{r: r, cid: cid, s: s}
+	ageAt := -1
+	if rng.Intn(3) == 0 || strings.HasSuffix(cid, "/0") {
+		ageAt = L / 3
+	}
 	for i := 0; i < L; i++ {
+		if i == ageAt {
+			m.age()
+		}
 		x := rng.Intn(100)
 		switch {
 		case x < 30 || len(s.Pkts) < 3:
@@ -75,6 +85,62 @@ func runHistory(r *core.Run, cid string, L int) {
 }
 
 // --------------------------------------------------------------------- recv
+
+// age lets more than the clients' trusting period (14 days) pass while every client is kept alive by a daily update - a
+// long-lived connection. Consensus states stored before are now older than the trusting period but still in the store
+// (an update prunes at most one); a message that names such a height must still be judged on its proof.
+func (m *mon) age() {
+	s := m.s
+	old := map[string]clienttypes.Height{}
+	// three fresh consensus states per client first, the last of which is remembered: pruning removes the oldest
+	// expired state per update, so the remembered one outlives the few updates made after the period ran out
+	for k := 0; k < 3; k++ {
+		for _, on := range s.W.Nodes {
+			for _, of := range s.W.Nodes {
+				if on != of {
+					s.W.Roll(of)
+					if o, _, err := s.UpdateClient(on, of, s.RandRelayer(), 0); err != nil || !o.OK() {
+						m.r.Count("aging_update_failed", 1)
+						return
+					}
+					old[on.Name+"|"+of.Name] = s.W.ClientLatest(on, of)
+				}
+			}
+		}
+	}
+	for day := 0; day < 15; day++ {
+		s.W.Advance(24 * time.Hour)
+		for _, n := range s.W.Nodes {
+			s.W.Roll(n)
+		}
+		for _, on := range s.W.Nodes {
+			for _, of := range s.W.Nodes {
+				if on != of {
+					if o, _, err := s.UpdateClient(on, of, s.RandRelayer(), 0); err != nil || !o.OK() {
+						m.r.Count("aging_update_failed", 1)
+						return
+					}
+				}
+			}
+		}
+	}
+	m.old = old
+	m.r.Count("histories_aged_beyond_the_trusting_period", 1)
+}
+
+// oldHeight returns, in an aged history, a consensus height the client on `on` stored for `of` before the ageing.
+func (m *mon) oldHeight(on, of *core.Node) (clienttypes.Height, bool) {
+	if m.old == nil || on == nil || of == nil {
+		return clienttypes.Height{}, false
+	}
+	h, ok := m.old[on.Name+"|"+of.Name]
+	return h, ok && s2(m.s, on, of, h)
+}
+
+func s2(s *pkt.Sim, on, of *core.Node, h clienttypes.Height) bool {
+	_, found := on.App.XIBCKeeper.ClientKeeper.GetClientConsensusState(on.Ctx(), of.Name, h)
+	return found
+}
 
 func (m *mon) attackRecv() {
 	s := m.s
@@ -194,6 +260,10 @@ func (m *mon) mutateRecv(msg *packettypes.MsgRecvPacket, p *pkt.Pkt, rel *core.A
 			msg.ProofCommitment, d = m.mutateProof(msg.ProofCommitment, p, true, msg.ProofHeight)
 		case 3:
 			msg.ProofHeight, d = mutateHeight(s.Rng, msg.ProofHeight)
+			if h, ok := m.oldHeight(p.DstN, p.SrcN); ok && s.Rng.Intn(2) == 0 {
+				msg.ProofHeight, d = h, "height:stored-before-the-trusting-period-ran-out"
+				m.r.Count("mutants_naming_a_height_older_than_the_trusting_period", 1)
+			}
 		}
 		if desc != "" {
 			desc += "+"
@@ -585,6 +655,10 @@ func (m *mon) mutateAck(msg *packettypes.MsgAcknowledgement, p *pkt.Pkt) string 
 			msg.ProofAcked, d = m.mutateProof(msg.ProofAcked, p, false, msg.ProofHeight)
 		case 4:
 			msg.ProofHeight, d = mutateHeight(s.Rng, msg.ProofHeight)
+			if h, ok := m.oldHeight(p.SrcN, p.DstN); ok && s.Rng.Intn(2) == 0 {
+				msg.ProofHeight, d = h, "height:stored-before-the-trusting-period-ran-out"
+				m.r.Count("mutants_naming_a_height_older_than_the_trusting_period", 1)
+			}
 		}
 		if desc != "" {
 			desc += "+"
